@@ -308,12 +308,49 @@ fn ctx_request(log: &[u32], mbw: u32, mbh: u32) -> Option<(String, String)> {
                 recorded.push(char::from(b'0' + log[i + 2] as u8));
                 i += 4;
             }
+            3 => i += 4,
+            4 | 5 => i += 2,
             _ => return None,
         }
     }
     if let Some((h, s, b)) = cur.take() { mbs.push(format!("{h}{s}:{b}")); }
     if mbs.len() as u32 != mbw * mbh { return None; }
     Some((format!("vp8ctx {mbw} {mbh} {}", mbs.join(" ")), recorded))
+}
+
+/// the sub-block mode part of the hook's log as a `vp8mode` request and the recorded (top, left) contexts
+fn mode_request(log: &[u32], mbw: u32, mbh: u32) -> Option<(String, String)> {
+    let mut mbs: Vec<String> = Vec::new();
+    let mut cur: Option<String> = None;
+    let mut recorded = String::new();
+    let mut i = 0;
+    let mut expect_x = 0u32;
+    while i < log.len() {
+        match log[i] {
+            5 => {
+                if let Some(m) = cur.take() { mbs.push(m); }
+                if log[i + 1] != expect_x { return None; }
+                expect_x = if expect_x + 1 == mbw { 0 } else { expect_x + 1 };
+                cur = Some(String::new());
+                i += 2;
+            }
+            3 => {
+                let c = cur.as_mut()?;
+                if c.is_empty() { c.push('b'); }
+                c.push(char::from(b'0' + log[i + 3] as u8));
+                recorded.push(char::from(b'0' + log[i + 1] as u8));
+                recorded.push(char::from(b'0' + log[i + 2] as u8));
+                i += 4;
+            }
+            4 => { let c = cur.as_mut()?; c.push('m'); c.push(char::from(b'0' + log[i + 1] as u8)); i += 2; }
+            1 => i += 5,
+            2 => i += 4,
+            _ => return None,
+        }
+    }
+    if let Some(m) = cur.take() { mbs.push(m); }
+    if mbs.len() as u32 != mbw * mbh || mbs.iter().any(|m| m.len() != 2 && m.len() != 17) { return None; }
+    Some((format!("vp8mode {mbw} {mbh} {} {}", hk::intra_mode_default(), mbs.join(" ")), recorded))
 }
 
 pub fn frame_case(rep: &mut Report, file: &[u8], label: &str) {
@@ -337,8 +374,14 @@ pub fn frame_case(rep: &mut Report, file: &[u8], label: &str) {
         if mbw * mbh <= 4000 {
             match ctx_request(&ctx_log, mbw, mbh) {
                 Some((line, rec)) => {
+                    if let Some((ml, mr)) = mode_request(&ctx_log, mbw, mbh) {
+                        for t in ml.split(' ').skip(4) { rep.hit(if t.starts_with('b') { "mode_mb_b_pred" } else { "mode_mb_16x16" }); }
+                        let mut l = CTX_LINES.lock().unwrap(); if l.len() < 40000 { l.push((ml, mr, case.clone())); }
+                    } else {
+                        rep.disagree(Disagreement { case: case.clone(), got: "malformed mode log".into(), expected: "one record per macroblock".into(), class: "correspondence", obligation: "tie2: the mode-bookkeeping hook log is well-formed".into(), detail: label.into() });
+                    }
                     for t in line.split(' ').skip(3) { match &t[..2] { "01" => rep.hit("ctx_mb_skipped_without_y2"), "11" => rep.hit("ctx_mb_skipped_with_y2"), "00" => rep.hit("ctx_mb_coded_without_y2"), _ => rep.hit("ctx_mb_coded_with_y2") } }
-                    let mut l = CTX_LINES.lock().unwrap(); if l.len() < 20000 { l.push((line, rec, case.clone())); }
+                    let mut l = CTX_LINES.lock().unwrap(); if l.len() < 40000 { l.push((line, rec, case.clone())); }
                 }
                 None => rep.disagree(Disagreement { case: case.clone(), got: "malformed context log".into(), expected: "one record per macroblock in raster order".into(), class: "correspondence", obligation: "tie2: the context-bookkeeping hook log is well-formed".into(), detail: label.into() }),
             }
@@ -485,17 +528,23 @@ pub fn run(o: &Opts) -> Report {
     // is proved): the complexity passed to every read_coefficients call of every decoded frame
     let pending: Vec<(String, String, String)> = std::mem::take(&mut *CTX_LINES.lock().unwrap());
     let lines: Vec<String> = pending.iter().map(|p| p.0.clone()).collect();
-    if std::env::var("VERIF_DUMP_CTX").is_ok() { let _ = std::fs::write("/tmp/ctxlines.txt", lines.join("\n")); }
+    if std::env::var("VERIF_DUMP_CTX").is_ok() { let _ = std::fs::write("/tmp/ctxlines.txt", pending.iter().map(|p| format!("{} || {}", p.0, p.1)).collect::<Vec<_>>().join("\n")); }
     let replies = ask_parallel(&o.drv, &lines, 8);
-    for ((_, rec, case), reply) in pending.iter().zip(&replies) {
-        rep.hit("context_bookkeeping_tie_frames");
+    for ((line, rec, case), reply) in pending.iter().zip(&replies) {
+        let is_mode = line.starts_with("vp8mode");
+        rep.hit(if is_mode { "mode_bookkeeping_tie_frames" } else { "context_bookkeeping_tie_frames" });
         let model = reply.split("ctx=").nth(1).unwrap_or("?");
         if !reply.starts_with("spec=true") {
-            rep.disagree(Disagreement { case: case.clone(), got: reply.chars().take(80).collect(), expected: "spec=true".into(), class: "correspondence", obligation: "instance of theorem C02.coefficient_contexts_are_rfc (model = RFC rule)".into(), detail: String::new() });
+            rep.disagree(Disagreement { case: case.clone(), got: reply.chars().take(80).collect(), expected: "spec=true".into(), class: "correspondence", obligation: if is_mode { "instance of theorem C02.subblock_mode_contexts_are_rfc (model = RFC rule)".into() } else { "instance of theorem C02.coefficient_contexts_are_rfc (model = RFC rule)".into() }, detail: String::new() });
         }
         if model != rec {
             let k = model.chars().zip(rec.chars()).position(|(a, b)| a != b).unwrap_or(model.len().min(rec.len()));
-            rep.disagree(Disagreement { case: case.clone(), got: format!("call #{k}: complexity {:?}", rec.chars().nth(k)), expected: format!("call #{k}: {:?} ({} calls vs {})", model.chars().nth(k), rec.len(), model.len()), class: "violation", obligation: "C02: the context (complexity) passed to every read_coefficients call is the one RFC 6386 section 13.3 defines from the neighbouring blocks (model Vp8Ctx.run = specification, proved)".into(), detail: String::new() });
+            let ob = if is_mode {
+                "C02: the (above, left) mode contexts of every sub-block mode read are the modes of the neighbouring sub-blocks as RFC 6386 section 11.3 defines them (model Vp8Mode.run = specification, proved)"
+            } else {
+                "C02: the context (complexity) passed to every read_coefficients call is the one RFC 6386 section 13.3 defines from the neighbouring blocks (model Vp8Ctx.run = specification, proved)"
+            };
+            rep.disagree(Disagreement { case: case.clone(), got: format!("item #{k}: {:?}", rec.chars().nth(k)), expected: format!("item #{k}: {:?} ({} vs {} items)", model.chars().nth(k), rec.len(), model.len()), class: "violation", obligation: ob.into(), detail: String::new() });
         }
     }
     rep
